@@ -65,16 +65,20 @@ def main():
                 ProtocolCodeGenerator(Path(xml_root + ".other")).generate(Path(out_root + ".first"))
                 del writes[:]
                 ProtocolCodeGenerator(Path(xml_root)).generate(Path(out_root))
-            elif mode == "same-instance-edited":
+            elif mode in ("same-instance-edited", "same-instance-earlier-revision"):
                 # one generator instance, the specification edited on disk between two runs (types moved to other
                 # directories): the second run must not remember anything of the first
                 import shutil
 
                 edit = xml_root + ".edit"
                 shutil.rmtree(edit, ignore_errors=True)
-                shutil.copytree(xml_root + ".other", edit)
+                shutil.copytree(xml_root + (".other" if mode == "same-instance-edited" else ".earlier"), edit)
                 g = ProtocolCodeGenerator(Path(edit))
-                g.generate(Path(out_root + ".first"))
+                try:
+                    g.generate(Path(out_root + ".first"))
+                except Exception:
+                    if mode == "same-instance-edited":
+                        raise
                 shutil.rmtree(edit)
                 shutil.copytree(xml_root, edit)
                 del writes[:]
